@@ -79,6 +79,8 @@ class Interp:
         self.cfg = config                # dict(en={T: bool}, ranks=bool, kc=int)
         self.width = {}                  # tracer -> value added to its marker
         self.chain = None
+        self.tagname = None              # local that holds the keep code when the chain does not store it directly
+        self.keep_from_tag = False
 
     def fail(self, node, why):
         raise TieBroken('%s line %s: %s (%s)' % (self.fn, getattr(node, 'lineno', '?'), why,
@@ -150,12 +152,36 @@ class Interp:
         return None
 
     # --- statements
+    def ignorable(self, s):
+        """a statement that cannot influence widths, markers or keep[i]: a store into (or update of) an element
+        of an array that is neither `keep` nor a table column (the per-thread counters — C10's subject), `pass`,
+        or an `if` made of such statements"""
+        if isinstance(s, ast.Pass):
+            return True
+        if isinstance(s, (ast.Assign, ast.AugAssign)):
+            t = s.targets[0] if isinstance(s, ast.Assign) and len(s.targets) == 1 else getattr(s, 'target', None)
+            if isinstance(t, ast.Subscript) and isinstance(t.value, ast.Name):
+                return t.value.id != 'keep' and self.cols.get(t.value.id) is None and not t.value.id.endswith('_marker')
+            return False
+        if isinstance(s, ast.If):
+            return all(self.ignorable(x) for x in s.body) and all(self.ignorable(x) for x in s.orelse)
+        return False
+
     def run(self, stmts):
         for s in stmts:
-            if self.chain is not None:
-                self.fail(s, 'statement after the keep[i] chain inside the first pass')
             if isinstance(s, ast.Expr) and isinstance(s.value, ast.Constant):
                 continue     # docstring / stray string
+            if self.ignorable(s):
+                continue
+            if self.chain is not None:
+                # after the chain only `keep[i] = <tag>` may follow (besides counters)
+                if (self.tagname and isinstance(s, ast.Assign) and len(s.targets) == 1
+                        and isinstance(s.targets[0], ast.Subscript) and isinstance(s.targets[0].value, ast.Name)
+                        and s.targets[0].value.id == 'keep' and isinstance(s.targets[0].slice, ast.Name)
+                        and s.targets[0].slice.id == 'i' and isinstance(s.value, ast.Name) and s.value.id == self.tagname):
+                    self.keep_from_tag = True
+                    continue
+                self.fail(s, 'statement after the keep[i] chain inside the first pass')
             if isinstance(s, ast.Assign):
                 if len(s.targets) != 1 or not isinstance(s.targets[0], ast.Name):
                     self.fail(s, 'assignment target')
@@ -176,7 +202,6 @@ class Interp:
                 name = s.target.id
                 if not name.endswith('_marker') or self.env.get(name, ('x',))[0] != 'marker':
                     self.fail(s, '+= on something that is not a marker')
-                T = {'LRG_marker': 'LRG', 'ELG_marker': 'ELG', 'QSO_marker': 'QSO'}.get(name)
                 v = self.ev(s.value)
                 if v[0] != 'prod':
                     self.fail(s, 'width is not occupation(...) * factors')
@@ -201,6 +226,12 @@ class Interp:
                 self.run(s.body if c else s.orelse)
                 continue
             self.fail(s, 'statement form %s' % type(s).__name__)
+
+    def finish(self):
+        if self.chain is None:
+            raise TieBroken('%s: keep[i] chain not found' % self.fn)
+        if self.tagname and not self.keep_from_tag:
+            raise TieBroken('%s: the chain sets `%s` but it is never stored to keep[i]' % (self.fn, self.tagname))
 
     def is_chain(self, s):
         return any(isinstance(n, ast.Subscript) and isinstance(n.value, ast.Name) and self.cols.get(n.value.id) == 'random'
@@ -233,13 +264,28 @@ class Interp:
             return rows, self.keep_code(s.orelse)
 
     def keep_code(self, body):
-        codes = [st.value.value for st in body
-                 if isinstance(st, ast.Assign) and isinstance(st.targets[0], ast.Subscript)
-                 and isinstance(st.targets[0].value, ast.Name) and st.targets[0].value.id == 'keep'
-                 and isinstance(st.value, ast.Constant)]
-        if len(codes) != 1:
-            self.fail(body[0] if body else 'empty', 'branch does not assign exactly one constant to keep[i]')
-        return int(codes[0])
+        """the code a branch gives the row: `keep[i] = <const>` directly, or `<local> = <const>` with the same
+        local in every branch (stored to keep[i] after the chain); other statements of the branch must be counters"""
+        direct, tagged = [], []
+        for st in body:
+            if isinstance(st, ast.Assign) and len(st.targets) == 1 and isinstance(st.value, ast.Constant) \
+                    and isinstance(st.value.value, int) and not isinstance(st.value.value, bool):
+                t = st.targets[0]
+                if isinstance(t, ast.Subscript) and isinstance(t.value, ast.Name) and t.value.id == 'keep' and \
+                        isinstance(t.slice, ast.Name) and t.slice.id == 'i':
+                    direct.append(int(st.value.value))
+                    continue
+                if isinstance(t, ast.Name):
+                    tagged.append((t.id, int(st.value.value)))
+                    continue
+            if not self.ignorable(st):
+                self.fail(st, 'statement in a chain branch that is neither the keep code nor a counter')
+        if len(direct) == 1 and not tagged and self.tagname is None:
+            return direct[0]
+        if len(tagged) == 1 and not direct and self.tagname in (None, tagged[0][0]):
+            self.tagname = tagged[0][0]
+            return tagged[0][1]
+        self.fail(body[0] if body else 'empty', 'branch does not give the row exactly one constant keep code')
 
 
 # ----------------------------------------------------------------------------- reading the source
@@ -344,8 +390,7 @@ def extract(G):
                 for kc in ((0, 1, 2) if sat else (0,)):
                     it = Interp(fn, cols, penv, dict(en=en, ranks=ranks, kc=kc))
                     it.run(body)
-                    if it.chain is None:
-                        raise TieBroken('%s: keep[i] chain not found' % fn)
+                    it.finish()
                     if chain_seen is None:
                         chain_seen = it.chain
                     elif chain_seen != it.chain:
